@@ -81,10 +81,12 @@ def generate(rng, tier):
         n = sum(lens)
         cases.append({"kind": "plist", "n": n, "lens": lens, "lens_dtype": dt, "vals": [rng.randrange(100) for _ in range(n)]})
     nb = 4 if tier == "quick" else 30
-    for _ in range(nb):
+    combos = [("reassign", "traj-precentered"), ("reassign", "traj"), ("reassign", "list"), ("batch_reassign", "list")]
+    for bi in range(nb):
         L = [rng.randint(1, 6) for _ in range(rng.randint(2, 6))]
         cases.append({"kind": "batch_reassign", "lens": L, "batch_frames": rng.randint(max(L) + 1, max(L) + 6),
-                      "seed": rng.randrange(10 ** 6), "k": rng.randint(2, 4)})
+                      "seed": rng.randrange(10 ** 6), "k": rng.randint(2, 4),
+                      "entry": combos[bi % 4][0], "cform": combos[bi % 4][1]})
     return cases
 
 
@@ -119,8 +121,17 @@ def _batch_reassign(c):
         centers = md.Trajectory(shapes.astype(np.float32), top)
         frac = (c["batch_frames"] + 0.5) * na * 3 * 4 / psutil.virtual_memory().total
         bs, _ = util.determine_batch_size(na, 4, frac)
-        targets = [(f, md.load(topf).top, None) for f in files]
-        asg, dst = util.batch_reassign(targets, centers, c["lens"], frac, n_procs=1)
+        if c.get("entry", "batch_reassign") == "batch_reassign":
+            targets = [(f, md.load(topf).top, None) for f in files]
+            asg, dst = util.batch_reassign(targets, centers, c["lens"], frac, n_procs=1)
+        else:
+            # the public entry point, with the centres handed over in the documented forms
+            cen = md.Trajectory(shapes.astype(np.float32), top)
+            if c["cform"] == "list":
+                cen = [cen[i] for i in range(len(cen))]
+            elif c["cform"] == "traj-precentered":
+                cen.center_coordinates()
+            asg, dst = util.reassign([topf], [files], ["all"], cen, frac_mem=frac)
         rows = []
         for i, fn in enumerate(files):
             trj = md.load(fn)
